@@ -6,6 +6,10 @@ use crate::p2::utils::point_in_triangle::{corner_direction, is_point_in_triangle
 use crate::p2::utils::{point_in_convex_poly2d, point_in_poly2d, segments_intersection2d, SegmentsIntersection};
 
 type P2 = d2::Point<f64>;
+/// `PolygonIntersectionTolerances` is public with a public field but not re-exported from `transformation`, so it cannot
+/// be named here; its type is inferred from the call inside `f` and the field is set through the second closure.
+fn with_tol2<T: Default, R>(f: impl FnOnce(T) -> R, edit: impl FnOnce(&mut T)) -> R { let mut t = T::default(); edit(&mut t); f(t) }
+macro_rules! tol_call { ($e:expr, $f:expr) => { with_tol2($f, |t| t.collinearity_epsilon = $e) } }
 
 pub fn floc(l: &SegmentPointLocation) -> String {
     match l {
@@ -31,6 +35,9 @@ pub fn exec(func: &str, a: &mut Args) -> String {
     match func {
         "orientation2d" => { let p = d2::p(a); let q = d2::p(a); let r = d2::p(a); let e = a.f();
             fori(Triangle::orientation2d(&p, &q, &r, e)).into() }
+        // the method `Triangle::orientation(&self, eps)` (dim2) has its own copy of the body of `orientation2d`
+        "triangle_orientation" => { let p = d2::p(a); let q = d2::p(a); let r = d2::p(a); let e = a.f();
+            fori(Triangle::new(p, q, r).orientation(e)).into() }
         "segments_intersection2d" | "segments_collinear_vertical" | "segments_collinear_horizontal" | "segments_collinear_generic" => { let p = d2::p(a); let q = d2::p(a); let r = d2::p(a); let s = d2::p(a); let e = a.f();
             match segments_intersection2d(&p, &q, &r, &s, e) {
                 None => "none".into(),
@@ -44,7 +51,17 @@ pub fn exec(func: &str, a: &mut Args) -> String {
             match corner_direction(&p, &q, &r) { Orientation::Ccw => "ccw", Orientation::Cw => "cw", Orientation::None => "none" }.into() }
         "is_point_in_triangle" => { let p = d2::p(a); let q = d2::p(a); let r = d2::p(a); let s = d2::p(a);
             match is_point_in_triangle(&p, &q, &r, &s) { None => "none".into(), Some(x) => b(x).into() } }
-        "convex_polygons_intersection_points" | "convex_axis_edge_pair" => { let p1 = poly(a); let p2 = poly(a);
+        "triangle_contains_point" => { let q = d2::p(a); let r = d2::p(a); let s = d2::p(a); let p = d2::p(a);
+            b(Triangle::new(q, r, s).contains_point(&p)).into() }
+        // callback form with an explicit collinearity epsilon (`_with_tolerances`): the ordered stream of location pairs
+        "convex_polygons_intersection" => { let p1 = poly(a); let p2 = poly(a); let e = a.f(); cvx_locs(&p1, &p2, e) }
+        "convex_points_with_tolerances" => { let p1 = poly(a); let p2 = poly(a); let e = a.f();
+            let mut out = Vec::new();
+            tol_call!(e, |t| crate::p2::transformation::convex_polygons_intersection_points_with_tolerances(&p1, &p2, t, &mut out));
+            let mut s = format!("{}", out.len());
+            for q in out.iter() { s.push(' '); s.push_str(&d2::fp(q)); }
+            s }
+        "convex_polygons_intersection_points" | "convex_axis_edge_pair" | "convex_large_pair" => { let p1 = poly(a); let p2 = poly(a);
             let mut out = Vec::new();
             crate::p2::transformation::convex_polygons_intersection_points(&p1, &p2, &mut out);
             let mut s = format!("{}", out.len());
@@ -58,6 +75,23 @@ pub fn exec(func: &str, a: &mut Args) -> String {
             run_stable(|| nc_locs(&p1, &p2)) }
         _ => "nofn".into(),
     }
+}
+
+// ---------------------------------------------------------------- convex, callback form / tolerances
+
+fn cvx_locs(p1: &[P2], p2: &[P2], e: f64) -> String {
+    let mut items: Vec<String> = Vec::new();
+    tol_call!(e, |t| crate::p2::transformation::convex_polygons_intersection_with_tolerances(p1, p2, t, |l1, l2| {
+        match (l1, l2) {
+            (Some(a), Some(b)) => { let (_, sa) = parse_loc(&format!("{:?}", a)); let (_, sb) = parse_loc(&format!("{:?}", b)); items.push(format!("b {} {}", sa, sb)); }
+            (Some(a), None) => { let (_, sa) = parse_loc(&format!("{:?}", a)); items.push(format!("p {}", sa)); }
+            (None, Some(b)) => { let (_, sb) = parse_loc(&format!("{:?}", b)); items.push(format!("q {}", sb)); }
+            (None, None) => { items.push("n".into()); }
+        }
+    }));
+    let mut s = format!("{}", items.len());
+    for it in items { s.push(' '); s.push_str(&it); }
+    s
 }
 
 // ---------------------------------------------------------------- non-convex polygon intersection
@@ -361,6 +395,7 @@ fn gen_axis_edge_pair(r: &mut Rng) -> (Vec<P2>, Vec<P2>) {
 pub fn gen(r: &mut Rng, thorough: bool) -> Vec<(String, String)> {
     let n = if thorough { 12000 } else { 1200 };
     let mut v = Vec::new();
+    let mut fam: std::collections::BTreeMap<String, usize> = std::collections::BTreeMap::new();
     // exhaustive sweep of the collinear family: every direction × pattern × orientation × role, collinear (off = 0)
     for dir in 0..3 { for pattern in 0..N_COL_PATTERNS { for bits in 0..8u32 {
         let s = collinear_case(r, dir, pattern, bits & 1 != 0, bits & 2 != 0, bits & 4 != 0, 0);
@@ -372,6 +407,7 @@ pub fn gen(r: &mut Rng, thorough: bool) -> Vec<(String, String)> {
         let (t0, t1) = (pt(r, lat), pt(r, lat));
         let t2 = if r.below(6) == 0 { lerp(&t0, &t1, par(r, lat)) } else { pt(r, lat) };
         v.push(("orientation2d".into(), format!("{} {} {} {}", d2::hp(&t0), d2::hp(&t1), d2::hp(&t2), hx(gen_eps(r)))));
+        v.push(("triangle_orientation".into(), format!("{} {} {} {}", d2::hp(&t0), d2::hp(&t1), d2::hp(&t2), hx(gen_eps(r)))));
         v.push(("corner_direction".into(), format!("{} {} {}", d2::hp(&t0), d2::hp(&t1), d2::hp(&t2))));
         let tri = [t0, t1, t2];
         let q = gen_query(r, lat, &tri);
@@ -420,10 +456,105 @@ pub fn gen(r: &mut Rng, thorough: bool) -> Vec<(String, String)> {
             let (p1, p2) = gen_axis_edge_pair(r);
             v.push(("convex_axis_edge_pair".into(), format!("{} {}", hpoly(&p1), hpoly(&p2))));
         }
+        // Triangle::contains_point (2-D): interior / exterior / edge / vertex / edge line beyond the edge, both orientations
+        {
+            let (t, q, class) = gen_tri_query(r, lat);
+            *fam.entry(format!("triangle_contains_point/{}", class)).or_insert(0) += 1;
+            v.push(("triangle_contains_point".into(), format!("{} {} {} {}", d2::hp(&t[0]), d2::hp(&t[1]), d2::hp(&t[2]), d2::hp(&q))));
+        }
+        // convex ∩ convex, callback form (location pairs, in emission order) and point form, explicit collinearity epsilon
+        {
+            let (p1, p2) = if it % 3 == 0 { gen_axis_edge_pair(r) } else { gen_convex_pair(r, lat) };
+            let e = *r.pick(&[0.0, f64::EPSILON * 100.0, f64::EPSILON * 100.0, 1.0e-9, 1.0e-6, 1.0e-4]);
+            if p1.len() >= 1 && p2.len() >= 1 {
+                let out = cvx_locs(&p1, &p2, e);
+                let class = if out == "0" { "empty" } else if out.contains(" b ") { if out.contains(" p ") && out.contains(" q ") { "crossing+both-vertices" } else if out.contains(" p ") || out.contains(" q ") { "crossing+one-polygon-vertices" } else { "crossing-only" } }
+                    else if out.contains(" p ") { "poly1-inside" } else { "poly2-inside" };
+                *fam.entry(format!("convex_polygons_intersection/{}/eps={:e}", class, e)).or_insert(0) += 1;
+                v.push(("convex_polygons_intersection".into(), format!("{} {} {}", hpoly(&p1), hpoly(&p2), hx(e))));
+                v.push(("convex_points_with_tolerances".into(), format!("{} {} {}", hpoly(&p1), hpoly(&p2), hx(e))));
+            }
+        }
+        // large convex polygons (the property's range is 3 to 64 vertices): many crossings, long walks against the loop cap
+        if it % 4 == 1 {
+            let (p1, p2, class) = gen_convex_large_pair(r, it % 8 == 1);
+            *fam.entry(format!("convex_large_pair/{}/n1={}..{}", class, p1.len() / 16 * 16, p1.len() / 16 * 16 + 15)).or_insert(0) += 1;
+            v.push(("convex_large_pair".into(), format!("{} {}", hpoly(&p1), hpoly(&p2))));
+        }
         // non-convex ∩ non-convex (simple polygons)
         if it % 4 < 2 { gen_nc(r, lat, &mut v, it % 32 == 4 || it % 32 == 5); }
     }
+    if std::env::var("VERIF_FAMILIES").is_ok() { for (k, c) in fam.iter() { eprintln!("C15 family {}: {}", k, c); } }
     v
+}
+
+/// a strictly convex polygon with `2 m` vertices (up to 64).  Lattice: the edge vectors are `m` distinct primitive integer
+/// vectors of the upper half-plane and their negatives, sorted by angle (their cumulative sums are the vertices: exact,
+/// strictly convex, counter-clockwise), scaled by 1/4.  Random: points of an ellipse at sorted random angles.
+fn gen_convex_large(r: &mut Rng, lat: bool) -> Vec<P2> {
+    let m = 4 + r.below(29) as usize; // 8 .. 64 vertices
+    if lat {
+        let gcd = |mut a: i64, mut b: i64| { a = a.abs(); b = b.abs(); while b != 0 { let t = a % b; a = b; b = t; } a };
+        let mut dirs: Vec<(i64, i64)> = Vec::new();
+        let mut guard = 0;
+        while dirs.len() < m && guard < 10000 {
+            guard += 1;
+            let dx = r.below(15) as i64 - 7; let dy = r.below(8) as i64;
+            if (dy == 0 && dx <= 0) || gcd(dx, dy) != 1 { continue; }
+            if !dirs.contains(&(dx, dy)) { dirs.push((dx, dy)); }
+        }
+        // angle order in the upper half-plane: decreasing dx/dy slope, i.e. by cross product
+        dirs.sort_by(|a, b| (b.0 * a.1 - a.0 * b.1).cmp(&0));
+        let mut all = dirs.clone(); all.extend(dirs.iter().map(|d| (-d.0, -d.1)));
+        let (ox, oy) = (r.below(17) as i64 - 8, r.below(17) as i64 - 8);
+        let (mut x, mut y) = (ox, oy);
+        let mut p = Vec::new();
+        for d in all.iter() { p.push(P2::new(x as f64 * 0.25, y as f64 * 0.25)); x += d.0; y += d.1; }
+        p
+    } else {
+        // the exact oracle is slow on large non-lattice polygons (long rationals): mostly up to 32 vertices, sometimes up to 64
+        let m = if r.below(4) == 0 { m } else { 4 + m % 13 };
+        let n = 2 * m;
+        let mut ang: Vec<f64> = (0..n).map(|k| (k as f64 + r.uniform(0.1, 0.9)) * 6.283185307179586 / n as f64).collect();
+        ang.sort_by(|a, b| a.partial_cmp(b).unwrap());
+        let (rx, ry) = (r.logu(1.0, 1e2), r.logu(1.0, 1e2));
+        let c = pt(r, false);
+        ang.iter().map(|t| P2::new(c.x + rx * t.cos(), c.y + ry * t.sin())).collect()
+    }
+}
+/// a large convex polygon against: a slightly shifted copy (many crossings), another large polygon around the same
+/// centre, a scaled copy (containment, parallel edges), a small polygon, a far copy; random start vertex / orientation
+fn gen_convex_large_pair(r: &mut Rng, lat: bool) -> (Vec<P2>, Vec<P2>, &'static str) {
+    let p = gen_convex_large(r, lat);
+    let c = centroid(&p); let c = P2::new(snap(c.x, lat), snap(c.y, lat));
+    let (q, class): (Vec<P2>, &'static str) = match r.below(6) {
+        0 | 1 => { let d = if lat { (r.lattice(4, 2), r.lattice(4, 2)) } else { (r.uniform(-1.0, 1.0), r.uniform(-1.0, 1.0)) }; (shift(&p, d.0, d.1), "shifted-copy") }
+        2 => { let t = gen_convex_large(r, lat); let ct = centroid(&t); (shift(&t, snap(c.x - ct.x, lat), snap(c.y - ct.y, lat)), "concentric-other") }
+        3 => { let k = *r.pick(&[0.5, 2.0, 0.75]); (p.iter().map(|v| P2::new(c.x + (v.x - c.x) * k, c.y + (v.y - c.y) * k)).collect(), "scaled-copy") }
+        4 => { let t = gen_convex(r, lat); let ct = centroid(&t); (shift(&t, snap(c.x - ct.x, lat), snap(c.y - ct.y, lat)), "small-polygon-at-centre") }
+        _ => (shift(&p, if lat { 64.0 } else { 1000.0 }, 0.0), "far-copy"),
+    };
+    let (p, q) = if r.bool() { (p, q) } else { (q, p) };
+    (respin(r, p), respin(r, q), class)
+}
+
+/// a triangle and a query point of a chosen class (the class name carries the orientation of the triangle)
+fn gen_tri_query(r: &mut Rng, lat: bool) -> ([P2; 3], P2, String) {
+    let t = [pt(r, lat), pt(r, lat), pt(r, lat)];
+    let area2 = (t[1].x - t[0].x) * (t[2].y - t[0].y) - (t[1].y - t[0].y) * (t[2].x - t[0].x);
+    let ori = if area2 > 0.0 { "ccw" } else if area2 < 0.0 { "cw" } else { "degenerate" };
+    let i = r.below(3) as usize; let j = (i + 1) % 3; let k = (i + 2) % 3;
+    let (q, class) = match r.below(8) {
+        0 | 1 => { let w = *r.pick(&[(0.25, 0.25, 0.5), (0.5, 0.25, 0.25), (0.125, 0.125, 0.75), (0.375, 0.5, 0.125)]);
+                   (P2::new(t[i].x * w.0 + t[j].x * w.1 + t[k].x * w.2, t[i].y * w.0 + t[j].y * w.1 + t[k].y * w.2), "interior") }
+        2 => (lerp(&t[i], &t[j], *r.pick(&[0.5, 0.25, 0.75])), "edge"),
+        3 => (t[i], "vertex"),
+        4 => (lerp(&t[i], &t[j], *r.pick(&[-0.5, 1.5, 2.0, -1.0])), "edge-line-beyond"),
+        5 => (P2::new(t[i].x + t[j].x - t[k].x, t[i].y + t[j].y - t[k].y), "exterior-mirrored"),
+        6 => (P2::new(t[i].x, pt(r, lat).y), "vertex-column"),
+        _ => (pt(r, lat), "random"),
+    };
+    (t, q, format!("{}-{}", class, ori))
 }
 
 /// two convex polygons in a chosen relation (generic overlap, translate, containment, shared vertex / edge, identical, disjoint)
